@@ -295,12 +295,43 @@ def run(prog: Program, res: Result) -> None:  # noqa: PLR0912, PLR0915
         res.ok("C08.R5", f"{EXT}:{st.node.lineno} _store_blocks", what, f"writer={writer}, reader={reader}, link={link}, leaf stacked first")
     else:
         res.fail("C08.R5", file=EXT, line=st.node.lineno, qualname="_store_blocks", construct=f"writer={writer} reader={reader} link={link} leaf-first={order_ok}", message=f"block stacks are written with `{writer}` (leaf first: {order_ok}) but read with `{reader}` and linked `{link}`: a less-derived definition is selected or block.super points the wrong way", what=what)
-    # required propagation shape
-    what = "_store_blocks: a block already overridden by a more-derived template loses `required` unless the override is itself required"
-    if "required = False if stack and (not block.required) else block.required" in txt:
-        res.ok("C08.R5", f"{EXT}:{st.node.lineno} _store_blocks", what, "required = False if stack and not block.required else block.required")
+    # required flag of the selected (most-derived, first stacked) item: evaluated as a boolean function of
+    # (the stack already holds a definition?, block.required) - the expression may be written in place or through a local
+    what = "_store_blocks: the first definition stacked for a name (the most-derived one, which the reader selects) carries its own `required` flag"
+    req_expr = None
+    for c in ast.walk(st.node):
+        if isinstance(c, ast.Call) and (dotted(c.func) or "").endswith("_BlockStackItem"):
+            req_expr = next((k.value for k in c.keywords if k.arg == "required"), None)
+    if isinstance(req_expr, ast.Name):
+        defs = [a.value for a in ast.walk(st.node) if isinstance(a, ast.Assign) and any(isinstance(t, ast.Name) and t.id == req_expr.id for t in a.targets)]
+        req_expr = defs[0] if len(defs) == 1 else None
+    stack_names = {t.id for a in ast.walk(st.node) if isinstance(a, ast.Assign) and isinstance(a.value, ast.Subscript) and "block_stacks" in norm(a.value) for t in a.targets if isinstance(t, ast.Name)}
+
+    def _beval(e: ast.AST, has_stack: bool, req: bool):  # noqa: ANN202
+        if isinstance(e, ast.Constant) and isinstance(e.value, bool):
+            return e.value
+        if isinstance(e, ast.Name) and e.id in stack_names:
+            return has_stack
+        if norm(e) == "block.required":
+            return req
+        if isinstance(e, ast.UnaryOp) and isinstance(e.op, ast.Not):
+            v = _beval(e.operand, has_stack, req)
+            return None if v is None else (not v)
+        if isinstance(e, ast.BoolOp):
+            vals = [_beval(v, has_stack, req) for v in e.values]
+            if any(v is None for v in vals):
+                return None
+            return all(vals) if isinstance(e.op, ast.And) else any(vals)
+        if isinstance(e, ast.IfExp):
+            t = _beval(e.test, has_stack, req)
+            return None if t is None else _beval(e.body if t else e.orelse, has_stack, req)
+        return None
+
+    verdicts = [(_beval(req_expr, False, r), r) for r in (True, False)] if req_expr is not None else [(None, True)]
+    if all(v is not None and v == r for v, r in verdicts):
+        res.ok("C08.R5", f"{EXT}:{st.node.lineno} _store_blocks", what, f"required={norm(req_expr, 70)}: equals block.required whenever the stack is still empty")
     else:
-        res.fail("C08.R5", file=EXT, line=st.node.lineno, qualname="_store_blocks", construct="required propagation", message="`required` is not cleared when a more-derived template overrides the block", what=what)
+        res.fail("C08.R5", file=EXT, line=st.node.lineno, qualname="_store_blocks", construct="required flag of the first stacked definition", message=f"the `required` flag stored with the most-derived definition of a block (`{norm(req_expr, 60) if req_expr is not None else '<not found>'}`) is not that definition's own flag: a required block that nobody overrides renders silently, or an overridden one is rejected", what=what)
     # readers render the selected item's block; super renders the parent's block with the parent's parent
     for nm in ("render_to_output", "render_to_output_async"):
         m = bn.methods[nm]
